@@ -70,6 +70,7 @@ type c16Op struct {
 	Kind    string     `json:"kind"`            // commit | fetch | delete | create
 	Coord   int        `json:"coord,omitempty"` // which of the two coordinators over the same store gets the request
 	Group   string     `json:"group,omitempty"`
+	Ctx     string     `json:"ctx,omitempty"` // commit only: "" | cancelled | expired request context (client gone / shutdown)
 	Bad     string     `json:"bad,omitempty"` // "", "gen", "member": commit that must be rejected
 	Entries []c16Entry `json:"entries,omitempty"`
 	Topic   string     `json:"topic,omitempty"` // delete, create
@@ -85,6 +86,7 @@ type c16Info struct {
 	absentFetch, presentFetch, fetchErr, commitErr, rejected, deletes int
 	setupFailed                                                       string
 	zeroForAbsent                                                     int
+	faultCommits, faultAcked                                          int
 }
 
 func c16Has(vals []c16Val, v c16Val) bool {
@@ -184,7 +186,21 @@ func c16Exec(store metadata.Store, sc c16Script, tolerateZero bool) (string, c16
 				}
 				req.Topics[j].Partitions = append(req.Topics[j].Partitions, rp)
 			}
-			resp, err := coords[op.Coord&1].OffsetCommit(ctx, req)
+			cctx := ctx
+			switch op.Ctx {
+			case "cancelled":
+				c2, cancel := context.WithCancel(ctx)
+				cancel()
+				cctx = c2
+			case "expired":
+				c2, cancel := context.WithDeadline(ctx, time.Unix(1, 0))
+				defer cancel()
+				cctx = c2
+			}
+			if op.Ctx != "" {
+				info.faultCommits++
+			}
+			resp, err := coords[op.Coord&1].OffsetCommit(cctx, req)
 			if err != nil {
 				// rejected as a whole: nothing may have been applied for a bad request;
 				// for a good one every entry may or may not be applied
@@ -223,6 +239,9 @@ func c16Exec(store metadata.Store, sc c16Script, tolerateZero bool) (string, c16
 						continue // must not be applied: model unchanged
 					}
 					if got.ErrorCode == protocol.NONE {
+						if op.Ctx != "" {
+							info.faultAcked++
+						}
 						model[k] = []c16Val{v}
 					} else {
 						info.commitErr++
@@ -643,6 +662,11 @@ func c16Generate(t *rapid.T, join func(c16Key) string, knownAlias string, etcd b
 		if rapid.IntRange(0, 3).Draw(t, "second-coordinator") == 0 {
 			op.Coord = 1
 		}
+		if kind == "commit" && rapid.IntRange(0, 4).Draw(t, "dead-context") == 0 {
+			// the request context is already dead when the store is asked to write: whatever is
+			// answered, a NONE must mean the value is readable afterwards
+			op.Ctx = rapid.SampledFrom([]string{"cancelled", "expired"}).Draw(t, "ctx")
+		}
 		if kind == "commit" {
 			op.Bad = rapid.SampledFrom([]string{"", "", "", "", "", "", "gen", "member"}).Draw(t, "bad")
 		}
@@ -665,7 +689,7 @@ func c16Generate(t *rapid.T, join func(c16Key) string, knownAlias string, etcd b
 			op.Entries = append(op.Entries, e)
 		}
 		g.script.Ops = append(g.script.Ops, op)
-		g.trace = append(g.trace, fmt.Sprintf("%s%s@%d %q %v", kind, op.Bad, op.Coord, op.Group, op.Entries))
+		g.trace = append(g.trace, fmt.Sprintf("%s%s%s@%d %q %v", kind, op.Bad, op.Ctx, op.Coord, op.Group, op.Entries))
 	}
 	return g
 }
@@ -704,6 +728,12 @@ func c16Record(st *vfkit.Stats, leg string, g c16Gen, info c16Info) {
 	}
 	if info.deletes > 0 {
 		st.Class("topic-delete")
+	}
+	if info.faultCommits > 0 {
+		st.Class("commit-under-dead-request-context")
+	}
+	if info.faultAcked > 0 {
+		st.Class("commit-under-dead-request-context-acknowledged")
 	}
 	if info.fetchErr > 0 {
 		st.Class("fetch-answered-with-error")
